@@ -91,6 +91,10 @@ fn failing_requests() -> Vec<String> {
             "SELECT id FROM t WHERE nonexistent > 3",
             "SELECT id FROM \"_meta_columns_nonexistent\"",
             "SELECT * FROM \"_meta_columns_t\" WHERE regex(column_name, '(')",
+            "SELECT SUM(v) FROM ovf",
+            "SELECT g, SUM(v) FROM ovf",
+            "SELECT SUM(v), COUNT(0) FROM ovf WHERE v > 0",
+            "SELECT v + v + v + v FROM ovf",
             "SELEC id FROM t",
             "SELECT id FROM t WHERE (((",
             "SELECT id FROM t ORDER BY",
@@ -113,7 +117,7 @@ const VALID: &[&str] = &[
 fn run_sequence(id: String, seed: u64, threads: usize, clients: usize, steps: usize, disk: bool, out: &mut CaseOut, op: &OpCell) {
     install_hook();
     let mut rng = Rng::derive(seed, &id, 0);
-    let cfg = DbCfg { disk, threads, partition_combine_factor: *rng.pick(&[0u64, 1, 4]), mem_lz4: rng.chance(0.5), ..DbCfg::default() };
+    let cfg = DbCfg { disk, threads, partition_combine_factor: *rng.pick(&[999u64, 999, 4, 1]), mem_lz4: rng.chance(0.5), ..DbCfg::default() };
     let db = Db::open(&cfg, op);
     // content that drives many encoding branches of flush/compaction + a single-partition canary
     let splits = vec![60, 70];
@@ -121,6 +125,12 @@ fn run_sequence(id: String, seed: u64, threads: usize, clients: usize, steps: us
     db.ingest(&[batch_of(&gt.table, 0, 60, true)], Via::Wire);
     db.flush();
     db.ingest(&[batch_of(&gt.table, 60, 130, true)], Via::Wire);
+    // four partitions whose SUM overflows only when the last partial results are merged (error in the final merge)
+    for p in 0..4i64 {
+        let b = Batch { table: "ovf".into(), rows: 3, cols: vec![("v".into(), ColRepr::I64(vec![(1i64 << 61) + p, 1, 2])), ("g".into(), ColRepr::I64(vec![0, 1, 1]))] };
+        db.ingest(&[b], Via::Wire);
+        db.flush();
+    }
     let canary = Batch { table: "canary".into(), rows: 10, cols: vec![("uid".into(), ColRepr::I64((1..=10).collect()))] };
     db.ingest(&[canary], Via::Wire);
     db.flush();
